@@ -135,7 +135,9 @@ type hdrSet struct {
 	in        ssa.Instruction
 }
 
-func headerSets(fn *ssa.Function) []hdrSet {
+func headerSets(fn *ssa.Function) []hdrSet { return headerSetsDepth(fn, 0) }
+
+func headerSetsDepth(fn *ssa.Function, depth int) []hdrSet {
 	var out []hdrSet
 	for _, ci := range calls(fn) {
 		call, ok := ci.(*ssa.Call)
@@ -143,6 +145,29 @@ func headerSets(fn *ssa.Function) []hdrSet {
 			continue
 		}
 		name := an.CalleeName(&call.Call)
+		// a module helper that is handed the writer and sets headers on it on all its paths
+		if g := an.StaticCallee(&call.Call); g != nil && depth < 2 && len(g.Blocks) > 0 && g.Pkg != nil && strings.HasPrefix(g.Pkg.Pkg.Path(), an.ModulePrefix) && len(g.Params) == len(call.Call.Args) {
+			for _, h := range headerSetsDepth(g, depth+1) {
+				hc, isCall := h.in.(*ssa.Call)
+				if !isCall {
+					continue
+				}
+				always := true
+				for _, rb := range an.ReturnBlocks(g) {
+					if !(h.in.Block() == rb || h.in.Block().Dominates(rb)) {
+						always = false
+					}
+				}
+				recv := an.PathOfIn(hc.Call.Args[0], &call.Call)
+				if depth > 0 {
+					recv = an.PathOf(hc.Call.Args[0])
+				}
+				if always && strings.HasPrefix(recv, "call:invoke:net/http.ResponseWriter.Header(p:") {
+					out = append(out, hdrSet{h.name, h.val, call})
+				}
+			}
+			continue
+		}
 		if name != "(net/http.Header).Add" && name != "(net/http.Header).Set" {
 			continue
 		}
@@ -281,30 +306,63 @@ func runKindCodec(c *core.Ctx) {
 	}
 	c.CountFuncs(2)
 	// encoder
+	// every way of reaching an encoder call: which value is encoded under which
+	// outcome of the From == To test (the value may be chosen into a variable first)
 	single, pair := false, false
+	encBad := false
 	for _, call := range callsNamed(enc, "encoding/json.Marshal") {
-		arg := an.PathOf(call.Call.Args[0])
-		eqGuard := ""
-		for _, g := range an.Guards(enc, call.Block()) {
-			if b, ok := g.V.(*ssa.BinOp); ok && (b.Op == token.EQL || b.Op == token.NEQ) {
-				x, y := an.PathOf(b.X), an.PathOf(b.Y)
-				if (strings.HasSuffix(x, ".From") && strings.HasSuffix(y, ".To")) || (strings.HasSuffix(x, ".To") && strings.HasSuffix(y, ".From")) {
-					if (b.Op == token.EQL) == g.True {
-						eqGuard = "eq"
-					} else {
-						eqGuard = "ne"
+		paths, _ := an.PathsTo(enc, call.Block(), 256)
+		for _, p := range paths {
+			if !an.Feasible(p) {
+				continue
+			}
+			v := call.Call.Args[0]
+			for i := 0; i < 4; i++ {
+				ph, ok := v.(*ssa.Phi)
+				if !ok {
+					break
+				}
+				pred := p.Pred(ph.Block())
+				for j, pb := range ph.Block().Preds {
+					if pb == pred {
+						v = ph.Edges[j]
 					}
 				}
 			}
-		}
-		if eqGuard == "eq" && strings.HasSuffix(arg, ".From") {
-			single = true
-		}
-		if eqGuard == "ne" {
-			if elems, ok := sliceLitElems(call.Call.Args[0]); ok && len(elems) == 2 && strings.HasSuffix(an.PathOf(elems[0]), ".From") && strings.HasSuffix(an.PathOf(elems[1]), ".To") {
-				pair = true
+			eqGuard := ""
+			for _, g := range p.Conds() {
+				g = an.NormCond(g)
+				if b, ok := g.V.(*ssa.BinOp); ok && (b.Op == token.EQL || b.Op == token.NEQ) {
+					x, y := an.PathOf(b.X), an.PathOf(b.Y)
+					if (strings.HasSuffix(x, ".From") && strings.HasSuffix(y, ".To")) || (strings.HasSuffix(x, ".To") && strings.HasSuffix(y, ".From")) {
+						if (b.Op == token.EQL) == g.True {
+							eqGuard = "eq"
+						} else {
+							eqGuard = "ne"
+						}
+					}
+				}
+			}
+			switch eqGuard {
+			case "eq":
+				if strings.HasSuffix(an.PathOf(v), ".From") || strings.HasSuffix(an.PathOf(v), ".To") {
+					single = true
+				} else {
+					encBad = true
+				}
+			case "ne":
+				if elems, ok := sliceLitElems(v); ok && len(elems) == 2 && strings.HasSuffix(an.PathOf(elems[0]), ".From") && strings.HasSuffix(an.PathOf(elems[1]), ".To") {
+					pair = true
+				} else {
+					encBad = true
+				}
+			default:
+				encBad = true
 			}
 		}
+	}
+	if encBad {
+		single, pair = single && false, pair && false
 	}
 	c.Check(single && pair, nil, fname(c, enc), "encode", P.Pos(enc.Pos()), "From == To ⇒ the number From; otherwise the array [From, To]", fmt.Sprintf("encoder shape not [single number iff From==To: %v; pair [From,To] otherwise: %v]", single, pair))
 	// decoder: stores to ret.From / ret.To
